@@ -71,12 +71,15 @@ impl KotoWrite for Capture {
 }
 
 fn new_koto(cap: &Capture, limit_ms: u64) -> Koto {
-    Koto::with_settings(
+    let koto = Koto::with_settings(
         KotoSettings::default()
             .with_stdout(cap.clone())
             .with_stderr(cap.clone())
             .with_execution_limit(Duration::from_millis(limit_ms)),
-    )
+    );
+    // serde path (koto_serde::SerializableKValue) reachable from scripts
+    koto.prelude().insert("json", koto_json::make_module());
+    koto
 }
 
 /// `prog <hexsrc> [<hexpath>]` → `<result> | <hex stdout> | <error class> <hex message>`
@@ -367,6 +370,66 @@ fn run_ops(spec: &Value) -> String {
     r.unwrap_or_else(|p| format!("PANIC {}", p.replace('\n', " ")))
 }
 
+/// One host-API operation (no script, no VM): the crate's own helpers on `KMap` / `KList`.
+/// `["ins",k,v]` KMap::insert · `["rem",k]` KMap::remove · `["rempath",k]` KMap::remove_path ·
+/// `["get",k]` KMap::get · `["has",k]` data().contains_key · `["size"]` len() · `["isempty"]` ·
+/// `["clear"]` KMap::clear / data_mut().clear() · `["geti",i]` data().get_index ·
+/// `["push",x]` / `["pop"]` / `["first"]` / `["last"]` / `["geth",i]` / `["snap"]` on KList data.
+#[allow(dead_code)]
+fn host_apply(c: &KValue, op: &Value) -> String {
+    let name = op[0].as_str().unwrap_or("");
+    let a = op[1].as_i64().unwrap_or(0);
+    let b = op[2].as_i64().unwrap_or(0);
+    let key = |k: i64| format!("k{}", k);
+    let opt = |v: Option<KValue>| v.map(|x| res_token(&x)).unwrap_or_else(|| "null".to_string());
+    match c {
+        KValue::Map(m) => match name {
+            "ins" => {
+                m.insert(key(a).as_str(), KValue::from(b));
+                "u".into()
+            }
+            "rem" => opt(m.remove(key(a).as_str())),
+            "rempath" => opt(m.remove_path(&key(a))),
+            "get" => opt(m.get(key(a).as_str())),
+            "has" => if m.data().contains_key(key(a).as_str()) { "b1".into() } else { "b0".into() },
+            "size" => format!("i{}", m.len()),
+            "isempty" => if m.is_empty() { "b1".into() } else { "b0".into() },
+            "clear" => {
+                let mut m2 = m.clone();
+                m2.clear();
+                "u".into()
+            }
+            "geti" => match m.data().get_index(a as usize) {
+                Some((k, v)) => ints_token([k.value().clone(), v.clone()].iter()),
+                None => "null".into(),
+            },
+            _ => "bad-host-op".into(),
+        },
+        KValue::List(l) => match name {
+            "push" => {
+                l.data_mut().push(KValue::from(a));
+                "u".into()
+            }
+            "pop" => opt(l.data_mut().pop()),
+            "size" => format!("i{}", l.len()),
+            "isempty" => if l.is_empty() { "b1".into() } else { "b0".into() },
+            "first" => opt(l.data().first().cloned()),
+            "last" => opt(l.data().last().cloned()),
+            "geth" => opt(l.data().get(a as usize).cloned()),
+            "clear" => {
+                l.data_mut().clear();
+                "u".into()
+            }
+            "snap" => {
+                let d = l.data().clone();
+                ints_token(d.iter())
+            }
+            _ => "bad-host-op".into(),
+        },
+        _ => "bad-host-container".into(),
+    }
+}
+
 /// `stress <hex json {kind, init, scripts[], rounds, dedupe, max_out}>` — arc build only.
 /// Persistent threads (one `Koto` each); per round one fresh shared container, a spin barrier, then
 /// every thread calls its `run(shared)`. Answer: JSON `{outcomes:[{n, threads:[..], final}], rounds,
@@ -380,14 +443,36 @@ fn run_stress(spec: &Value) -> String {
     let dedupe = spec["dedupe"].as_bool().unwrap_or(true);
     let max_out = spec["max_out"].as_u64().unwrap_or(400) as usize;
     let n = scripts.len();
+    // host-API threads: `host_progs[t]` non-empty → thread t runs these operations in Rust
+    let host_progs: Vec<Vec<Value>> = (0..n).map(|t| spec["host_progs"][t].as_array().cloned().unwrap_or_default()).collect();
     let containers: Arc<Vec<KValue>> = Arc::new((0..rounds).map(|_| make_container(&kind, &spec["init"])).collect());
     let arrived: Arc<Vec<AtomicUsize>> = Arc::new((0..rounds).map(|_| AtomicUsize::new(0)).collect());
     let mut handles = vec![];
-    for script in scripts.iter() {
+    for (ti, script) in scripts.iter().enumerate() {
         let script = script.clone();
         let containers = containers.clone();
         let arrived = arrived.clone();
+        let host = host_progs[ti].clone();
         handles.push(std::thread::spawn(move || -> Vec<String> {
+            if !host.is_empty() {
+                let mut out = Vec::with_capacity(rounds);
+                for round in 0..rounds {
+                    arrived[round].fetch_add(1, Ordering::SeqCst);
+                    let mut spins = 0u64;
+                    while arrived[round].load(Ordering::SeqCst) < n {
+                        spins += 1;
+                        if spins % 4096 == 0 {
+                            std::thread::yield_now();
+                        } else {
+                            std::hint::spin_loop();
+                        }
+                    }
+                    let c = containers[round].clone();
+                    let r = kvh::catch(|| host.iter().map(|op| host_apply(&c, op)).collect::<Vec<_>>().join(" "));
+                    out.push(r.unwrap_or_else(|p| format!("PANIC:{}", p.replace([' ', '\n'], "_"))));
+                }
+                return out;
+            }
             let cap = Capture::default();
             let mut koto = new_koto(&cap, 20000);
             let setup = koto.compile_and_run(script.as_str()).map(|_| ()).map_err(|e| e.to_string());
